@@ -2154,13 +2154,18 @@ class Process:
             return cext.proc_cpu_affinity_get(self.pid)
 
         def _get_eligible_cpus(
-            self, _re=re.compile(br"Cpus_allowed_list:\t(\d+)-(\d+)")
+            self, _re=re.compile(br"Cpus_allowed_list:\t([\d,-]+)")
         ):
             # See: https://github.com/giampaolo/psutil/issues/956
             data = self._read_status_file()
             match = _re.findall(data)
             if match:
-                return list(range(int(match[0][0]), int(match[0][1]) + 1))
+                # The value is a list of CPU ranges, e.g. "0-3,5,8-11".
+                cpus = []
+                for chunk in match[0].split(b','):
+                    first, _, last = chunk.partition(b'-')
+                    cpus.extend(range(int(first), int(last or first) + 1))
+                return cpus
             else:
                 return list(range(len(per_cpu_times())))
 
